@@ -199,7 +199,7 @@ pub fn run(tier: Tier, seed: u64) -> Report {
     if !rep.absorb("grid", r) {
         return rep;
     }
-    let r = run_pbt("latitudes", seed, tier.pick(100_000, 5_000_000), lat_strategy, |x, st| check_lat(*x, st), |x| json!(x));
+    let r = run_pbt("latitudes", seed, tier.pick(300_000, 10_000_000), lat_strategy, |x, st| check_lat(*x, st), |x| json!(x));
     if !rep.absorb("latitudes", r) {
         return rep;
     }
